@@ -175,9 +175,9 @@ def onVoteRequest (s : LState) (t : Nat) : LState × String :=
 def onAppendEntries (s : LState) (t : Nat) : LState × String :=
   if s.term ≥ t then (s, "ae-reject") else ({ s with term := t, packed := revoked }, "ae-stepdown")
 
-/-- inbound `ClusterConfUpdate` at the leader: neither revokes nor adopts the term -/
+/-- inbound `ClusterConfUpdate` at the leader: adopts the request term and revokes (since the F13/F13b fix) -/
 def onConfUpdate (s : LState) (t : Nat) : LState × String :=
-  if s.term ≥ t then (s, "cu-reject") else (s, "cu-stepdown")
+  if s.term ≥ t then (s, "cu-reject") else ({ s with term := t, packed := revoked }, "cu-stepdown")
 
 /-- `become_follower` (processing of `InternalEvent::BecomeFollower`) -/
 def becomeFollower (s : LState) : LState := { s with packed := revoked, stepped := true }
